@@ -256,3 +256,21 @@ prop("C10", "c10",
            "at the remote call log; bounded exploration.",
      note="Trusted: the recording cache (Redis semantics) and the independent RFC 7234 freshness calculator of the harness.",
      technique="property-based testing: TTL bounds at a recording cache + independent freshness calculator")
+
+prop("C11", "c11",
+     "Pairs of executions (A then B) over two rules sharing one mechanism prototype with different rule-level overrides, "
+     "for five families against a deterministic remote side (its answer is a hash of everything it receives): remote "
+     "authorizer and generic contextualizer (0-4 endpoint headers, 0-4 values, payload template, expressions), generic "
+     "authenticator (forwarded header and cookie), oauth2_introspection (assertions overridden per rule), "
+     "oauth2_client_credentials finalizer (scopes, two prototypes). Pair kinds: equal; differing in exactly one component "
+     "(subject id, one value, credential, forwarded header or cookie value, scopes); cross-variant (payload / expressions / "
+     "assertions overridden in B, B stricter than A); adversarially shifted across component boundaries ({x:1y2,y:3} vs "
+     "{x:1,y:2y3}, scopes [ab c] vs [a bc], clientA+Bsecret vs clientAB+secret). A is executed 8 times. Oracle: (safety, "
+     "differential) status and upstream headers of B with the cache on (after A) equal those with the cache off; (effectiveness) "
+     "8 identical executions of A cause exactly one remote call. Non-trivial: >= 2 map entries in headers/values, or a "
+     "non-equal pair; distinct by case.",
+     [dict(run="^TestCacheNeverChangesADecision$", quick=500, thorough=5000, shards_thorough=10)],
+     ["the remote systems are deterministic functions of what they receive", "Go randomises map iteration per range: 8 repetitions expose order-dependent keys with high probability"],
+     level="Randomised generated search with a cache-on/cache-off differential oracle and a remote call-count oracle; bounded exploration.",
+     note="Trusted: the recording cache (Redis semantics) and the deterministic scripted remote side.",
+     technique="property-based testing: differential cache on vs off + call-count oracle over repeated executions")
